@@ -49,6 +49,8 @@ pub struct RevPlan {
     /// the trailer of this revision has /Info (a fresh object whose /Title names the revision);
     /// without it the document has no /Info after this revision, whatever older trailers said
     pub info: bool,
+    /// predictor of the cross-reference stream (with a Flate or LZW filter): 0, 2, 10..=15
+    pub xref_predictor: u8,
 }
 
 #[derive(Clone, Debug, PartialEq)]
@@ -70,12 +72,14 @@ fn filt_name(f: StmFilter) -> &'static str {
         StmFilter::None => "none",
         StmFilter::FlateStored => "flate_stored",
         StmFilter::AsciiHex => "ascii_hex",
+        StmFilter::Lzw => "lzw",
     }
 }
 fn filt_from(s: &str) -> StmFilter {
     match s {
         "flate_stored" => StmFilter::FlateStored,
         "ascii_hex" => StmFilter::AsciiHex,
+        "lzw" => StmFilter::Lzw,
         _ => StmFilter::None,
     }
 }
@@ -98,7 +102,7 @@ impl History {
                     .collect();
                 json!({"mentions": m, "xref_stream": r.xref_stream, "w_extra": r.w_extra, "w0_zero": r.w0_zero, "cuts": r.cuts, "xref_filter": filt_name(r.xref_filter),
                     "objstm_filter": filt_name(r.objstm_filter), "trailing_ws": r.trailing_ws, "two_objstms": r.two_objstms, "move_root": r.move_root,
-                    "free_old_root": r.free_old_root, "reuse_xref_num": r.reuse_xref_num, "stale_member": r.stale_member, "length_ref": r.length_ref, "info": r.info})
+                    "free_old_root": r.free_old_root, "reuse_xref_num": r.reuse_xref_num, "stale_member": r.stale_member, "length_ref": r.length_ref, "info": r.info, "xref_predictor": r.xref_predictor})
             })
             .collect();
         json!({"junk": hex(&self.junk), "nvals": self.nvals, "revs": revs, "relaxed_reuse": self.relaxed_reuse, "encrypt": self.encrypt.map(|(r, k)| json!([r, k]))})
@@ -137,6 +141,7 @@ impl History {
                 stale_member: r.get("stale_member").and_then(|x| x.as_bool()).unwrap_or(false),
                 length_ref: r.get("length_ref").and_then(|x| x.as_u64()).unwrap_or(0) as u8,
                 info: r.get("info").and_then(|x| x.as_bool()).unwrap_or(false),
+                xref_predictor: r.get("xref_predictor").and_then(|x| x.as_u64()).unwrap_or(0) as u8,
             });
         }
         Some(History { junk: unhex(j.get("junk")?.as_str()?)?, nvals: j.get("nvals")?.as_u64()? as u32, revs, relaxed_reuse: j.get("relaxed_reuse").and_then(|x| x.as_bool()).unwrap_or(false),
@@ -256,7 +261,7 @@ pub fn compile(h: &History) -> DocSpec {
             last_xref_stream_num = Some(num);
             let all_inuse = ri > 0 && slots.values().all(|s| matches!(s, Slot::Direct { .. })) && objstms.is_empty();
             let w0 = if r.w0_zero && all_inuse { 0 } else { 1 + r.w_extra[0] };
-            XrefStyle::Stream { num, w: [w0, 4 + r.w_extra[1], 2 + r.w_extra[2]], cuts: r.cuts.clone(), filter: r.xref_filter }
+            XrefStyle::Stream { num, w: [w0, 4 + r.w_extra[1], 2 + r.w_extra[2]], cuts: r.cuts.clone(), filter: r.xref_filter, predictor: r.xref_predictor }
         } else {
             XrefStyle::Classic { cuts: r.cuts.clone() }
         };
@@ -315,7 +320,7 @@ pub fn gen_history(rng: &mut Rng, tier: Tier) -> History {
     let nvals = 3 + rng.below(10) as u32;
     let max_revs = if tier == Tier::Quick { 4 } else { 8 };
     let n_revs = 1 + rng.usize(max_revs);
-    let filters = [StmFilter::None, StmFilter::FlateStored, StmFilter::AsciiHex];
+    let filters = [StmFilter::None, StmFilter::FlateStored, StmFilter::AsciiHex, StmFilter::Lzw, StmFilter::FlateStored];
     // swarm: which writer styles are enabled in this run
     let allow_stream = rng.chance(3, 4);
     let allow_classic = !allow_stream || rng.chance(3, 4);
@@ -370,6 +375,7 @@ pub fn gen_history(rng: &mut Rng, tier: Tier) -> History {
             stale_member: rng.chance(1, 5),
             length_ref: if rng.chance(1, 3) { 1 + rng.below(2) as u8 } else { 0 },
             info: rng.chance(1, 3),
+            xref_predictor: if rng.coin() { *rng.pick(&[12u8, 12, 10, 11, 13, 14, 15, 2]) } else { 0 },
         });
     }
     let junk = if rng.chance(1, 5) { (0..rng.usize(64)).map(|_| *rng.pick(b"xyz \n012")).collect() } else { vec![] };
@@ -646,6 +652,20 @@ impl C02 {
             if progress {
                 continue;
             }
+            // without predictor
+            for i in 0..best.revs.len() {
+                if best.revs[i].xref_predictor != 0 {
+                    let mut c = best.clone();
+                    c.revs[i].xref_predictor = 0;
+                    if try_c(c, &mut best, &mut detail, &mut budget) {
+                        progress = true;
+                        break;
+                    }
+                }
+            }
+            if progress {
+                continue;
+            }
             // simpler styles
             for i in 0..best.revs.len() {
                 let r = &best.revs[i];
@@ -677,7 +697,7 @@ impl Check for C02 {
         CheckInfo {
             id: "C02",
             level: "exploration",
-            rule: "one run = one update history of 1-4 (quick) / 1-8 (thorough) revisions over 3-12 value object numbers written by the harness's independent writer (classic tables with arbitrary subsection splits; xref streams with arbitrary /Index splits, /W widths incl. width-0 type field, optional filter; objects direct, in one or two object streams with or without filter and trailing white space, freed with generation+1, reused; /Size growth; moving /Root; trailers with and without /Info; one history in five written RC4-encrypted (revision 2, 3 or 4 of the standard security handler, empty user password) by the harness's own MD5/RC4 implementation, which the self-test checks against the /O and /U entries of the two RC4 corpus files), opened after every append (every crash point that keeps whole revisions) strict+uncached and tolerant+cached; every number below /Size is resolved and compared with the model 'newest mention wins'; the trailer (/Root, /ID, /Size, /Info, presence of /Prev) must be that of the newest section. Non-trivial = some revision overrides an earlier mention; distinct = hash of the history",
+            rule: "one run = one update history of 1-4 (quick) / 1-8 (thorough) revisions over 3-12 value object numbers written by the harness's independent writer (classic tables with arbitrary subsection splits; xref streams with arbitrary /Index splits, /W widths incl. width-0 type field, optional filter (stored-block Flate, ASCIIHex, LZW) and predictor (TIFF 2, PNG 10-15); objects direct, in one or two object streams with or without filter and trailing white space, freed with generation+1, reused; /Size growth; moving /Root; trailers with and without /Info; one history in five written RC4-encrypted (revision 2, 3 or 4 of the standard security handler, empty user password) by the harness's own MD5/RC4 implementation, which the self-test checks against the /O and /U entries of the two RC4 corpus files), opened after every append (every crash point that keeps whole revisions) strict+uncached and tolerant+cached; every number below /Size is resolved and compared with the model 'newest mention wins'; the trailer (/Root, /ID, /Size, /Info, presence of /Prev) must be that of the newest section. Non-trivial = some revision overrides an earlier mention; distinct = hash of the history",
             assumptions: vec![
                 "trusted base: the harness's writer; every written file is cross-checked by the harness's strict reader (offsets, section chain, newest-first merge) before it is used, disagreement is a harness error".into(),
                 "crash points are revision boundaries; a torn final append, hybrid-reference files and sections violating the generation rules are outside the statement".into(),
